@@ -118,8 +118,22 @@ Qed.
 
 Lemma graphic_printable : forall l, forallb graphic l = true -> forallb printable l = true.
 Proof.
-  unfold no_nl; apply forallb_impl; intros x H. unfold graphic, printable in *. apply andb_prop in H. destruct H as [H1 H2].
+  unfold no_nl; apply forallb_impl; intros x H. unfold graphic, printable in *. apply andb_prop in H. destruct H as [H H3].
+  apply andb_prop in H. destruct H as [H1 H2].
   apply N.leb_le in H1. rewrite H2. replace (32 <=? x) with true; [reflexivity|]. symmetry. apply N.leb_le. lia.
+Qed.
+
+(* visible ASCII without the backslash is what the unquoted text arguments may contain *)
+Lemma graphic_plain : forall l, forallb graphic l = true -> line_plain l = true.
+Proof.
+  unfold line_plain; apply forallb_impl; intros x H. unfold graphic in H. apply andb_prop in H. destruct H as [H H3].
+  apply andb_prop in H. destruct H as [H1 H2]. apply N.leb_le in H2. rewrite H3, andb_true_r. apply N.ltb_lt. lia.
+Qed.
+
+Lemma printable_ascii7 : forall l, forallb printable l = true -> ascii7 l = true.
+Proof.
+  unfold ascii7; apply forallb_impl; intros x H. unfold printable in H. apply andb_prop in H. destruct H as [_ H2].
+  apply N.leb_le in H2. apply N.ltb_lt. lia.
 Qed.
 
 (* ---------- decimal ---------- *)
@@ -193,7 +207,8 @@ Qed.
 Lemma digits_graphic : forall l, forallb is_digit l = true -> forallb graphic l = true.
 Proof.
   unfold no_nl; apply forallb_impl; intros x H. unfold is_digit in H. unfold graphic. apply andb_prop in H. destruct H as [H1 H2].
-  apply N.leb_le in H1, H2. apply andb_true_intro. split; apply N.leb_le; lia.
+  apply N.leb_le in H1, H2. apply andb_true_intro. split; [apply andb_true_intro; split; apply N.leb_le; lia|].
+  apply negb_true_iff, N.eqb_neq. lia.
 Qed.
 
 Lemma parse_Z_print_N : forall n, parse_Z (print_N n) = Some (Z.of_N n).
@@ -420,18 +435,21 @@ Proof.
   intros s rest H. unfold read_arg.
   change (39 :: escape_str s ++ 39 :: 10 :: rest) with ((39 :: escape_str s) ++ [39] ++ 10 :: rest).
   rewrite app_assoc. rewrite read_line_app.
-  - cbn [app]. rewrite unquote_quoted, unescape_escape_fuel. reflexivity.
+  - cbn [app]. rewrite unquote_quoted, unescape_escape_fuel. rewrite (printable_ascii7 _ H). reflexivity.
   - rewrite no_nl_app. change (no_nl (39 :: escape_str s)) with (no_nl (escape_str s)).
     rewrite escape_no_nl. reflexivity.
 Qed.
 
-Lemma rd_noescape_ok : forall p rest, no_nl p = true ->
+Lemma rd_noescape_ok : forall p rest, no_nl p = true -> line_plain p = true ->
   read_arg rd_stringnl_noescape (p ++ 10 :: rest) = Some (AB p, rest).
-Proof. intros p rest H. unfold read_arg. rewrite read_line_app by exact H. reflexivity. Qed.
+Proof. intros p rest H P. unfold read_arg. rewrite read_line_app by exact H. rewrite P. reflexivity. Qed.
 
-Lemma rd_pair_ok : forall m a rest, no_nl m = true -> no_nl a = true ->
+Lemma rd_pair_ok : forall m a rest, no_nl m = true -> no_nl a = true -> line_plain m = true -> line_plain a = true ->
   read_arg rd_stringnl_noescape_pair (m ++ 10 :: a ++ 10 :: rest) = Some (AP m a, rest).
-Proof. intros m a rest H1 H2. unfold read_arg. rewrite read_line_app by exact H1. rewrite read_line_app by exact H2. reflexivity. Qed.
+Proof.
+  intros m a rest H1 H2 P1 P2. unfold read_arg. rewrite read_line_app by exact H1. rewrite read_line_app by exact H2.
+  rewrite P1, P2. reflexivity.
+Qed.
 
 Lemma rd_unicodenl_ok : forall p rest, no_nl p = true -> raw_unicode_ok (S (length p)) false p = true ->
   read_arg rd_unicodestringnl (p ++ 10 :: rest) = Some (AB p, rest).
@@ -542,8 +560,8 @@ Proof.
   all: try (apply N.ltb_lt in H; rewrite rd_float8_ok by exact H; reflexivity).
   all: try (rewrite rd_stringnl_ok by assumption; reflexivity).
   all: try (rewrite rd_unicodenl_ok by (try apply printable_no_nl; assumption); reflexivity).
-  all: try (rewrite rd_pair_ok by (apply graphic_no_nl; assumption); reflexivity).
-  all: try (rewrite rd_noescape_ok by (apply graphic_no_nl; assumption); reflexivity).
+  all: try (rewrite rd_pair_ok by (first [apply graphic_no_nl | apply graphic_plain]; assumption); reflexivity).
+  all: try (rewrite rd_noescape_ok by (first [apply graphic_no_nl | apply graphic_plain]; assumption); reflexivity).
   all: try (rewrite (rd_counted1 rd_string1) by (auto; assumption); reflexivity).
   all: try (rewrite (rd_counted1 rd_bytes1) by (auto; assumption); reflexivity).
   all: try (rewrite rd_string4_ok by assumption; reflexivity).
